@@ -259,6 +259,11 @@ pub enum ContextError {
 
     /// A record is out of zone.
     OutOfZone(Rtype),
+
+    /// The zone has no apex.
+    ///
+    /// (This happens if the zone file did not contain any record.)
+    MissingApex,
 }
 
 impl Display for ContextError {
@@ -272,6 +277,7 @@ impl Display for ContextError {
                 write!(f, "Invalid CNAME: {err}")
             }
             ContextError::OutOfZone(err) => write!(f, "Out of zone: {err}"),
+            ContextError::MissingApex => write!(f, "Missing zone apex"),
         }
     }
 }
